@@ -432,10 +432,10 @@ pub fn def() -> PropDef {
         ],
         subs: || {
             vec![
-                Box::new(Sub::<Case> { name: "s3-race", cases: |t| t.scale(100_000, 8), strategy: strategy_s3, exec: exec_s3 }),
+                Box::new(Sub::<Case> { name: "s3-race", cases: |t| t.scale(300_000, 6), strategy: strategy_s3, exec: exec_s3 }),
                 Box::new(Sub::<LocalCase> {
                     name: "local-seq",
-                    cases: |t| t.scale(60_000, 5),
+                    cases: |t| t.scale(150_000, 4),
                     strategy: |_| prop::collection::vec(op(), 1..20).prop_map(|ops| LocalCase { ops }).boxed(),
                     exec: exec_local,
                 }),
@@ -447,7 +447,7 @@ pub fn def() -> PropDef {
                 }),
                 Box::new(Sub::<RouterCase> {
                     name: "router",
-                    cases: |t| t.scale(100_000, 5),
+                    cases: |t| t.scale(250_000, 4),
                     strategy: |_| {
                         prop::collection::vec(
                             prop_oneof![
